@@ -508,7 +508,16 @@ type Conv struct {
 	Site string // innermost goldmark frame of the last recovered panic
 	buf  bytes.Buffer
 	buf2 bytes.Buffer
+	// Borrowed makes Convert hand the caller's slice itself to the library (needed where the memory of the source is the
+	// point, as in the read-only pages of C12). Otherwise Convert behaves like a caller that owns and reuses its source
+	// buffer: the source is copied into a buffer private to this Conv, converted from there, and the buffer is overwritten
+	// with markup-significant garbage as soon as the call has returned — anything the instance keeps that still points
+	// into an earlier source shows up in a later result.
+	Borrowed bool
+	src      []byte
 }
+
+const scribble = "<s \"&'>\n[x](javascript:y)\n# "
 
 // PanicSite extracts the innermost goldmark function from the current goroutine's stack (call inside recover).
 func PanicSite() string {
@@ -541,7 +550,18 @@ func (c *Conv) Convert(src []byte) (out []byte, err error, pan any) {
 		}
 	}()
 	c.buf.Reset()
-	err = c.MD.Convert(src, &c.buf)
+	if c.Borrowed {
+		err = c.MD.Convert(src, &c.buf)
+		return c.buf.Bytes(), err, nil
+	}
+	n := len(src)
+	c.src = append(c.src[:0], src...)
+	defer func() {
+		for i := 0; i < n; i++ {
+			c.src[i] = scribble[i%len(scribble)]
+		}
+	}()
+	err = c.MD.Convert(c.src[:n:n], &c.buf)
 	return c.buf.Bytes(), err, nil
 }
 
